@@ -4,6 +4,7 @@ CONSTANTS
   Vals = {0}
   Offsets = {0}
   MaxRows = 100000
+  InitTables = {}
 INIT TraceInit
 NEXT TraceNext
 INVARIANTS PointerInRange ClosedHasNoRows
